@@ -22,7 +22,7 @@ CHECKS: dict[str, tuple[str, str, str, str]] = {
 }
 
 # checks reviewed by the coordinator (quiet on the unchanged tree at several seeds, mutants caught); only these are claimed
-ACCEPTED = ["C01", "C02", "C03", "C05", "C06", "C07", "C08", "C09", "C10", "C11", "C12", "C13", "C14", "C15", "C16", "C17", "C18", "C19", "C20"]
+ACCEPTED = ["C01", "C02", "C03", "C04", "C05", "C06", "C07", "C08", "C09", "C10", "C11", "C12", "C13", "C14", "C15", "C16", "C17", "C18", "C19", "C20"]
 
 LEVELS = {"C15": "fault_enumeration", "C20": "fault_enumeration"}
 
